@@ -394,10 +394,16 @@ class StmtMixin:
                 # a loop over a constant list of strings that has an invariant in the sidecar is cut, not unrolled
                 from z3 import Concat as _C, Unit as _U
                 zs = [_U(x.z) for x in v.a['items']]
-                v = VSeq(_C(*zs) if len(zs) > 1 else zs[0], 'str')
+                lit = _C(*zs) if len(zs) > 1 else zs[0]
+                # the table gets a name (one defining equation) so that terms mentioning an item stay small
+                from z3 import FreshConst as _FC
+                tbl = _FC(lit.sort(), 'table')
+                o[1].fact(tbl == lit)
+                v = VSeq(tbl, 'str')
                 o[1].ghost['_items'] = v
                 lens = [len(to_py(x)) for x in o[2].a['items']]
                 v.a['lenbounds'] = (min(lens), max(lens))
+                v.a['table'] = [to_py(x) for x in o[2].a['items']]
             if v.ty in ('list', 'tuple'):
                 outs += self._unroll(s, v.a['items'], o[1], enum)
             elif v.ty == 'const':
